@@ -654,6 +654,43 @@ func ruleC12_1(c *Ctx) {
 			c.undecided(R, n, "anchor", 0, "not found")
 			continue
 		}
+		// the frame that takes the file apart: the loader itself, or an unexported helper it hands the bytes to and
+		// whose error it returns
+		if firstCall(f, "in_toto.loadPayload") == nil {
+			for _, via := range allCalls(f) {
+				g := via.Common().StaticCallee()
+				if g == nil || g.Blocks == nil || g.Pkg != f.Pkg || g.Object() == nil || g.Object().Exported() || firstCall(g, "in_toto.loadPayload") == nil || !hasErrResult(via) {
+					continue
+				}
+				handled := false
+				if e := errResult(via); e != nil {
+					for _, br := range errBranches(e) {
+						handled = handled || c.failing(br.NonNil)
+					}
+					for _, r := range returnsOf(f) {
+						if ei := errIndex(f); ei >= 0 && resolve(r.Results[ei], r) == e {
+							handled = true
+						}
+					}
+				}
+				c.check(handled, R, n, "the error of the parsing helper "+fname(g)+" fails the load", via.Pos(), "returned / failing continuation", "the loader ignores the error of "+fname(g))
+				n = n + " via " + fname(g)
+				f = g
+				break
+			}
+		}
+		// the two parts are found by their exact member names: a map[string]*json.RawMessage, not a struct
+		for _, b := range f.Blocks {
+			for _, in := range b.Instrs {
+				u, ok := in.(*ssa.UnOp)
+				if !ok || u.Op.String() != "*" || typeStr(u.Type()) != "*encoding/json.RawMessage" {
+					continue
+				}
+				if fa, ok := u.X.(*ssa.FieldAddr); ok {
+					c.bad(R, n, "raw part read from struct field "+fieldName(fa.X.Type(), fa.Field), u.Pos(), "the wrapper is taken apart by decoding into a struct: encoding/json matches struct fields case-insensitively, so a file whose members are spelled Signed / SIGNATURES is accepted although it has no 'signed' / 'signatures' member")
+				}
+			}
+		}
 		// every deref of a raw map element is dominated by a nil test of the same lookup key
 		nd := 0
 		for _, b := range f.Blocks {
@@ -913,6 +950,12 @@ func ruleC12_3(c *Ctx) {
 		frames := []*ssa.Function{f}
 		for g := range c.ownedBy(f) {
 			if g != f {
+				frames = append(frames, g)
+			}
+		}
+		// an unexported parsing helper shared by the two loaders
+		for _, via := range allCalls(f) {
+			if g := via.Common().StaticCallee(); g != nil && g.Blocks != nil && g.Pkg == f.Pkg && g.Object() != nil && !g.Object().Exported() && firstCall(g, "in_toto.loadPayload") != nil {
 				frames = append(frames, g)
 			}
 		}
